@@ -219,6 +219,15 @@ def mutants(name, ini):
             k0, other = pf[1][0][0], pf[1][1][0].split('(')[0]
             out.append(setk('Potential-Form', k0, k0.replace('rho', other), 'formula-parameter-named-like-form'))
             out.append(setv('Potential-Form', pf[1][0][0], pf[1][0][1].replace('helper(r, 2.0)', 'helper(r)'), 'formula-call-arity'))
+    # a malformed formula that no interaction uses is still a malformed file
+    for nk, nv, op in (('unused(r, A', 'A*r', 'unused-formula-signature-unclosed'), ('unused(r,,A)', 'A*r', 'unused-formula-empty-parameter'),
+                       ('unused(r, A, a)', 'A*r + a', 'unused-formula-parameters-differ-in-case'), ('unused(r, A)', 'A*r + ${nosuch}', 'unused-formula-placeholder-unresolved'),
+                       ('unused r, A', 'A*r', 'unused-formula-signature-no-parentheses')):
+        d = ini.copy()
+        if d.section('Potential-Form') is None:
+            d.sections.append(['Potential-Form', []])
+        d.section('Potential-Form')[1].append([nk, nv])
+        out.append((op, d))
     # ---------------------------------------------------------------- [Species]
     sp = ini.section('Species')
     used = set(k for k, _v in (ini.section('EAM-Embed') or [None, []])[1])
@@ -274,6 +283,12 @@ def cases(tier):
         out.append(dict(kind='valid', model='target ' + tgt, text=retarget(M['setfl_fs'], tgt)))
     out.append(dict(kind='valid', model='target eam_adp', text=M['adp'].render()))
     out.append(dict(kind='valid', model='no [Tabulation] section (documented defaults)', text='[Pair]\nO-O : as.buck 1000.0 0.3 32.0\n'))
+    # large tables given through separate x and y entries (257 .. 5000 points)
+    for npt in (256, 257, 300, 1000, 5000):
+        xs = ' '.join('%g' % (0.01 * i) for i in range(npt))
+        ys = ' '.join('%g' % (1.0 / (1.0 + 0.01 * i)) for i in range(npt))
+        out.append(dict(kind='valid', model='table form with %d points in x / y' % npt,
+                        text='[Tabulation]\ntarget : LAMMPS\nnr : 4\ncutoff : 2.0\n\n[Pair]\nO-O : tf\n\n[Table-Form:tf]\nx : %s\ny : %s\n' % (xs, ys)))
     # table data wrapped over continuation lines, however many values a line holds
     head = '[Tabulation]\ntarget : LAMMPS\nnr : 4\ncutoff : 3.0\n\n[Pair]\nO-O : tf\n\n[Table-Form:tf]\n'
     for name, body in (('xy, 3 values per line', 'xy : 0 9 1\n   4 2 1\n   3 -1 4\n   -0.5 5 0\n'), ('xy, 5 + 7 values', 'xy : 0 9 1 4 2\n   1 3 -1 4 -0.5 5 0\n'),
